@@ -1,4 +1,5 @@
 import CollectionsC.Proofs.DequeQueue
+import CollectionsC.Proofs.DequeCross
 /-! # C09 (queue half) — CC_Queue is FIFO
 
 Statements and closing proofs only.  `CC.Queue` (`Model/Queue.lean`) mirrors `src/cc_queue.c`: a header
@@ -7,7 +8,9 @@ the deque iterator.  The abstract spec `Spec.QueueSpec.Fifo` keeps the elements 
 appends, `poll` takes the head.  The simulation relation is `q.abs = f.items.reverse` (the adapter
 iterates newest first).  Quantifiers: every capacity 2^k, every ring layout (wrapped, exactly full),
 every value, every history; growth steps and wrap-arounds are covered because the deque theorems hold
-for every layout.  Neither `add_first` nor `remove_last` reaches finding D3, so nothing here is partial. -/
+for every layout.  Neither `add_first` nor `remove_last` reaches finding D3, so nothing here is partial.
+Whole traversals, iterator `replace` and the zip iterator of the adapter: `Properties/C07Queue.lean`
+(`traversal_complete`, `replace_refines`, `zip_refines`). -/
 namespace CC.Properties.C09Queue
 open CC CC.Spec CC.Spec.QueueSpec
 
@@ -57,32 +60,36 @@ theorem getLast_reverse (l : List Nat) :
   | cons x xs => simp [DequeSpec.getLast]
 
 /-- **One step.**  From related states, an operation either behaves exactly like the ideal FIFO and
-ends in related states (ledger balanced, nothing faulted), or it is an `enqueue` into a full ring whose
-growth was refused: `CC_ERR_ALLOC`, queue physically unchanged. -/
+ends in related states (ledger balanced on the queue's triple, nothing faulted), or it is an `enqueue` into
+a full ring whose growth was refused: `CC_ERR_ALLOC`, queue physically unchanged. -/
 theorem step_refines (q : Queue) (f : Fifo) (m : Mem) (op : Op) (h : Sim q f) :
     ((stepQ q m op).1 = (stepF f op).1 ∧ Sim (stepQ q m op).2.1 (stepF f op).2 ∧
-      Deque.memSame (stepQ q m op).2.2 m) ∨
+      Deque.memSame q.triple (stepQ q m op).2.2 m) ∨
     ((∃ x, op = .enqueue x) ∧ (stepQ q m op).1 = ⟨some .errAlloc, none⟩ ∧ (stepQ q m op).2.1 = q ∧
-      Deque.memSame (stepQ q m op).2.2 m ∧
-      (m.alloc.1 = false ∨ (q.d.cap = Gen.MAX_POW_TWO ∧ q.d.size = q.d.cap))) := by
-  obtain ⟨hi, habs⟩ := h
+      Deque.memSame q.triple (stepQ q m op).2.2 m ∧
+      ((m.allocT q.triple).1 = false ∨ (q.d.cap = Gen.MAX_POW_TWO ∧ q.d.size = q.d.cap))) := by
+  obtain ⟨⟨hi, htr⟩, habs⟩ := h
   have habs' : q.d.abs = f.items.reverse := habs
+  rw [← htr]
   cases op with
   | enqueue x =>
     rcases Deque.addFirst_spec q.d x m hi with ⟨a1, a2, a3, a4, _⟩ | ⟨a1, a2, a3, a4, a5⟩
     · left
       simp only [stepQ, stepF, Queue.enqueue, a1]
-      refine ⟨(by first | rfl | trivial), ⟨a2, ?_⟩, a4⟩
-      show (q.d.addFirst x m).2.1.abs = _
-      rw [a3, habs']; simp [Fifo.enqueue]
+      refine ⟨(by first | rfl | trivial), ⟨⟨a2, ?_⟩, ?_⟩, a4⟩
+      · show (q.d.addFirst x m).2.1.triple = q.triple
+        rw [Deque.addFirst_triple, htr]
+      · show (q.d.addFirst x m).2.1.abs = _
+        rw [a3, habs']; simp [Fifo.enqueue]
     · right
       simp only [stepQ, Queue.enqueue, a1]
-      refine ⟨⟨x, rfl⟩, trivial, ?_, a3, a5.imp id (fun h => ⟨h, a4⟩)⟩
+      refine ⟨⟨x, rfl⟩, (by first | rfl | trivial), ?_, a3, a5.imp id (fun h => ⟨h, a4⟩)⟩
       cases q; simp only at a2 ⊢; rw [a2]
   | poll =>
     obtain ⟨a1, a2, a3, a4, a5, _⟩ := Deque.removeLast_spec q.d m hi
     have hl : q.d.size = q.d.abs.length := by simp
     rw [hl, ← Deque.spec_removeLast_eq, habs', removeLast_reverse] at a1 a2 a3
+    have htr' : (q.d.removeLast m).2.2.1.triple = q.triple := by rw [Deque.removeLast_triple, htr]
     left
     simp only [stepQ, stepF, Queue.poll, Fifo.poll]
     cases hitems : f.items with
@@ -90,14 +97,14 @@ theorem step_refines (q : Queue) (f : Fifo) (m : Mem) (op : Op) (h : Sim q f) :
       rw [hitems] at a1 a2 a3
       simp only at a1 a2 a3
       rw [a1, a2]
-      exact ⟨(by first | rfl | trivial), ⟨a4, by show (q.d.removeLast m).2.2.1.abs = _; rw [a3, hitems]; rfl⟩,
-        by rw [a5]; exact Deque.memSame_refl m⟩
+      exact ⟨(by first | rfl | trivial), ⟨⟨a4, htr'⟩, by show (q.d.removeLast m).2.2.1.abs = _; rw [a3, hitems]; rfl⟩,
+        by rw [a5]; exact Deque.memSame_refl _ m⟩
     | cons y ys =>
       rw [hitems] at a1 a2 a3
       simp only at a1 a2 a3
       rw [a1, a2]
-      exact ⟨(by first | rfl | trivial), ⟨a4, by show (q.d.removeLast m).2.2.1.abs = _; rw [a3]⟩,
-        by rw [a5]; exact Deque.memSame_refl m⟩
+      exact ⟨(by first | rfl | trivial), ⟨⟨a4, htr'⟩, by show (q.d.removeLast m).2.2.1.abs = _; rw [a3]⟩,
+        by rw [a5]; exact Deque.memSame_refl _ m⟩
   | peek =>
     obtain ⟨a1, a2, a3⟩ := Deque.getLast_spec q.d m hi
     rw [habs', getLast_reverse] at a1 a2
@@ -108,20 +115,23 @@ theorem step_refines (q : Queue) (f : Fifo) (m : Mem) (op : Op) (h : Sim q f) :
       rw [hitems] at a1 a2
       simp only at a1 a2
       rw [a1, a2]
-      exact ⟨(by first | rfl | trivial), ⟨hi, habs⟩, by rw [a3]; exact Deque.memSame_refl m⟩
+      exact ⟨(by first | rfl | trivial), ⟨⟨hi, htr⟩, habs⟩, by rw [a3]; exact Deque.memSame_refl _ m⟩
     | cons y ys =>
       rw [hitems] at a1 a2
       simp only at a1 a2
       rw [a1, a2]
-      exact ⟨(by first | rfl | trivial), ⟨hi, habs⟩, by rw [a3]; exact Deque.memSame_refl m⟩
+      exact ⟨(by first | rfl | trivial), ⟨⟨hi, htr⟩, habs⟩, by rw [a3]; exact Deque.memSame_refl _ m⟩
   | size =>
     left
-    refine ⟨?_, ⟨hi, habs⟩, Deque.memSame_refl m⟩
+    refine ⟨?_, ⟨⟨hi, htr⟩, habs⟩, Deque.memSame_refl _ m⟩
     simp only [stepQ, stepF, Queue.size, Fifo.size]
     have : q.d.size = q.d.abs.length := by simp
     rw [this, habs']; simp
 
-/-! ## histories -/
+theorem step_triple (q : Queue) (m : Mem) (op : Op) : (stepQ q m op).2.1.triple = q.triple := by
+  cases op <;> rfl
+
+/-! ## histories, every refusal schedule -/
 
 def runF (f : Fifo) : List Op → List Out × Fifo
   | [] => ([], f)
@@ -131,6 +141,95 @@ def runQ (q : Queue) (m : Mem) : List Op → List Out × Queue × Mem
   | [] => ([], q, m)
   | op :: ops => let r := stepQ q m op; let rs := runQ r.2.1 r.2.2 ops; (r.1 :: rs.1, rs.2.1, rs.2.2)
 
+/-- the model reported `CC_ERR_ALLOC` for this call -/
+def blocked (q : Queue) (m : Mem) (op : Op) : Bool := (stepQ q m op).1.st == some .errAlloc
+
+/-- the ideal FIFO, told which calls were blocked -/
+def stepB (f : Fifo) (ob : Op × Bool) : Out × Fifo :=
+  if ob.2 then (⟨some .errAlloc, none⟩, f) else stepF f ob.1
+
+def runB (f : Fifo) : List (Op × Bool) → List Out × Fifo
+  | [] => ([], f)
+  | ob :: obs => let r := stepB f ob; let rs := runB r.2 obs; (r.1 :: rs.1, rs.2)
+
+/-- which calls of a history the model blocks (along its own run) -/
+def flags (q : Queue) (m : Mem) : List Op → List Bool
+  | [] => []
+  | op :: ops => blocked q m op :: flags (stepQ q m op).2.1 (stepQ q m op).2.2 ops
+
+theorem stepF_never_errAlloc (f : Fifo) (op : Op) : (stepF f op).1.st ≠ some .errAlloc := by
+  cases op with
+  | enqueue x => simp [stepF]
+  | poll => simp only [stepF, Fifo.poll]; cases f.items <;> simp
+  | peek => simp only [stepF, Fifo.peek]; cases f.items <;> simp
+  | size => simp [stepF]
+
+/-- **the blocked set is pinned down**: only an `enqueue` into a full ring can be blocked, and exactly
+when the allocator of the queue's triple refuses or the capacity limit is reached -/
+theorem blocked_iff (q : Queue) (f : Fifo) (m : Mem) (op : Op) (h : Sim q f) :
+    blocked q m op = true ↔ (∃ x, op = .enqueue x) ∧ q.d.size = q.d.cap ∧
+      (q.d.cap = Gen.MAX_POW_TWO ∨ (m.allocT q.triple).1 = false) := by
+  unfold blocked
+  rw [beq_iff_eq, ← h.1.2]
+  cases op with
+  | enqueue x =>
+    simp only [stepQ, Queue.enqueue, Option.some.injEq]
+    rw [(Deque.errAlloc_iff q.d m x 0 h.1.1).2.1]
+    constructor
+    · rintro ⟨a, b⟩; exact ⟨⟨x, rfl⟩, a, b⟩
+    · rintro ⟨_, a, b⟩; exact ⟨a, b⟩
+  | poll =>
+    constructor
+    · intro hb
+      rcases step_refines q f m .poll h with ⟨s1, _⟩ | ⟨⟨x, e⟩, _⟩
+      · rw [s1] at hb; exact absurd hb (stepF_never_errAlloc f .poll)
+      · cases e
+    · rintro ⟨⟨x, e⟩, _⟩; cases e
+  | peek =>
+    constructor
+    · intro hb
+      rcases step_refines q f m .peek h with ⟨s1, _⟩ | ⟨⟨x, e⟩, _⟩
+      · rw [s1] at hb; exact absurd hb (stepF_never_errAlloc f .peek)
+      · cases e
+    · rintro ⟨⟨x, e⟩, _⟩; cases e
+  | size =>
+    constructor
+    · intro hb; simp [stepQ] at hb
+    · rintro ⟨⟨x, e⟩, _⟩; cases e
+
+/-- **C09 (queue), all interleavings, every refusal schedule.**  Any enqueue/poll/peek/size interleaving of
+any length on the model — from any ring layout, under any allocator behaviour — returns exactly what the
+ideal FIFO returns when told which enqueues were blocked (`flags`, pinned down by `blocked_iff`); blocked
+enqueues report `CC_ERR_ALLOC` and change nothing.  This crosses any number of growth steps, refused growth
+steps and wrap-arounds. -/
+theorem history_refines_sched (ops : List Op) (q : Queue) (f : Fifo) (m : Mem) (h : Sim q f) :
+    (runQ q m ops).1 = (runB f (ops.zip (flags q m ops))).1 ∧
+    Sim (runQ q m ops).2.1 (runB f (ops.zip (flags q m ops))).2 ∧
+    Deque.memSame q.triple (runQ q m ops).2.2 m := by
+  induction ops generalizing q f m with
+  | nil => exact ⟨rfl, h, Deque.memSame_refl _ m⟩
+  | cons op ops ih =>
+    have htr := step_triple q m op
+    simp only [runQ, flags, List.zip_cons_cons, runB]
+    cases hb : blocked q m op
+    · simp only [stepB, Bool.false_eq_true, if_false]
+      rcases step_refines q f m op h with ⟨s1, s2, s3⟩ | ⟨_, s1, _⟩
+      · obtain ⟨r1, r2, r3⟩ := ih (stepQ q m op).2.1 (stepF f op).2 (stepQ q m op).2.2 s2
+        rw [htr] at r3
+        exact ⟨by rw [s1, r1], r2, Deque.memSame_trans r3 s3⟩
+      · exfalso
+        unfold blocked at hb
+        rw [s1] at hb; simp at hb
+    · simp only [stepB, if_true]
+      rcases step_refines q f m op h with ⟨s1, _⟩ | ⟨_, s1, s2, s3, _⟩
+      · exfalso
+        unfold blocked at hb
+        rw [beq_iff_eq, s1] at hb
+        exact stepF_never_errAlloc f op hb
+      · obtain ⟨r1, r2, r3⟩ := ih (stepQ q m op).2.1 f (stepQ q m op).2.2 (by rw [s2]; exact h)
+        rw [htr] at r3
+        exact ⟨by rw [s1, r1], r2, Deque.memSame_trans r3 s3⟩
+
 theorem stepF_size_le (f : Fifo) (op : Op) : (stepF f op).2.items.length ≤ f.items.length + 1 := by
   cases op with
   | enqueue x => simp [stepF, Fifo.enqueue]
@@ -138,50 +237,54 @@ theorem stepF_size_le (f : Fifo) (op : Op) : (stepF f op).2.items.length ≤ f.i
   | peek => simp [stepF]
   | size => simp [stepF]
 
-/-- **C09 (queue), all interleavings.**  With an allocator that does not refuse and fewer than
-`MAX_POW_TWO` elements, any enqueue/poll/peek/size interleaving on the model — from any ring layout —
-returns exactly what the ideal FIFO returns and ends in a related state; this crosses any number of
-growth steps and wrap-arounds. -/
-theorem history_refines (ops : List Op) (q : Queue) (f : Fifo) (m : Mem) (h : Sim q f) (hs : m.sched = [])
-    (hbound : f.items.length + ops.length ≤ Gen.MAX_POW_TWO) :
+/-- **Corollary: no enqueue is blocked** when the allocator never refuses (C-library triple or exhausted
+schedule) and the occupancy stays below `MAX_POW_TWO`: the model then equals the plain ideal FIFO -/
+theorem history_refines (ops : List Op) (q : Queue) (f : Fifo) (m : Mem) (h : Sim q f)
+    (hn : Deque.neverRefuses q.triple m) (hbound : f.items.length + ops.length ≤ Gen.MAX_POW_TWO) :
     (runQ q m ops).1 = (runF f ops).1 ∧ Sim (runQ q m ops).2.1 (runF f ops).2 ∧
-    Deque.memSame (runQ q m ops).2.2 m := by
+    Deque.memSame q.triple (runQ q m ops).2.2 m := by
   induction ops generalizing q f m with
-  | nil => exact ⟨rfl, h, Deque.memSame_refl m⟩
+  | nil => exact ⟨rfl, h, Deque.memSame_refl _ m⟩
   | cons op ops ih =>
     simp only [List.length_cons] at hbound
+    have htr := step_triple q m op
     rcases step_refines q f m op h with ⟨s1, s2, s3⟩ | ⟨_, _, _, _, s5⟩
     · have hlen := stepF_size_le f op
-      obtain ⟨r1, r2, r3⟩ := ih (stepQ q m op).2.1 (stepF f op).2 (stepQ q m op).2.2 s2 (s3.2.2.2 hs) (by omega)
+      obtain ⟨r1, r2, r3⟩ := ih (stepQ q m op).2.1 (stepF f op).2 (stepQ q m op).2.2 s2
+        (by rw [htr]; exact Deque.memD_neverRefuses s3 hn) (by omega)
       simp only [runQ, runF]
+      rw [htr] at r3
       exact ⟨by rw [s1, r1], r2, Deque.memSame_trans r3 s3⟩
     · exfalso
       rcases s5 with s5 | ⟨s5, s6⟩
-      · have := (Deque.alloc_sched_nil m hs).1
+      · have := (Deque.allocT_of_neverRefuses q.triple m hn).1
         rw [s5] at this; exact absurd this (by decide)
       · have h1 : q.d.size = f.items.length := by
           have := congrArg List.length h.2
           simpa [Queue.abs] using this
         omega
 
-/-- **from the constructor**, every configured capacity -/
-theorem new_history_refines (confCap : Nat) (m0 : Mem) (hs : m0.sched = []) (ops : List Op)
+/-- **from the constructor**, every configured capacity, either constructor (`cc_queue_new_conf` /
+`cc_queue_new`); the queue owns exactly three blocks on its triple throughout -/
+theorem new_history_refines (confCap : Nat) (t : Triple) (m0 : Mem) (hn : Deque.neverRefuses t m0) (ops : List Op)
     (hbound : ops.length ≤ Gen.MAX_POW_TWO) :
-    ∃ q0, (Queue.new confCap m0).2.1 = some q0 ∧ (Queue.new confCap m0).1 = .ok ∧
-      (runQ q0 (Queue.new confCap m0).2.2 ops).1 = (runF {} ops).1 ∧
-      Sim (runQ q0 (Queue.new confCap m0).2.2 ops).2.1 (runF {} ops).2 := by
-  rcases Queue.new_spec confCap m0 with ⟨n1, q0, n2, n3, n4, _, _, _, n8⟩ | ⟨n1, _, n3⟩
-  · obtain ⟨r1, r2, _⟩ := history_refines ops q0 {} _ ⟨n3, by rw [n4]; rfl⟩ (n8 hs) (by simpa using hbound)
-    exact ⟨q0, n2, n1, r1, r2⟩
+    ∃ q0, (Queue.new confCap t m0).2.1 = some q0 ∧ (Queue.new confCap t m0).1 = .ok ∧
+      (runQ q0 (Queue.new confCap t m0).2.2 ops).1 = (runF {} ops).1 ∧
+      Sim (runQ q0 (Queue.new confCap t m0).2.2 ops).2.1 (runF {} ops).2 ∧
+      Deque.memRel t 3 (runQ q0 (Queue.new confCap t m0).2.2 ops).2.2 m0 := by
+  rcases Queue.new_spec confCap t m0 with ⟨n1, q0, n2, n3, n4, _, n6, n7⟩ | ⟨n1, _, n3⟩
+  · obtain ⟨r1, r2, r3⟩ := history_refines ops q0 {} _ ⟨n3, by rw [n4]; rfl⟩
+      (by rw [n6]; exact Deque.memD_neverRefuses n7 hn) (by simpa using hbound)
+    rw [n6] at r3
+    exact ⟨q0, n2, n1, r1, r2, Deque.memRel_same r3 n7⟩
   · exfalso
     -- with a never-refusing allocator the constructor cannot report CC_ERR_ALLOC
-    have h1 := Deque.alloc_sched_nil m0 hs
-    unfold Queue.new at n1
-    simp only [h1.1, Bool.not_true, Bool.false_eq_true, if_false] at n1
-    rcases Deque.new_spec confCap m0.alloc.2 with ⟨_, d0, k2, _⟩ | ⟨_, _, _, k4⟩
-    · rw [k2] at n1; simp at n1
-    · have h2 := Deque.alloc_sched_nil _ h1.2
-      have h3 := Deque.alloc_sched_nil _ h2.2
+    have h1 := Deque.allocT_of_neverRefuses t m0 hn
+    rcases Deque.new_spec confCap t (m0.allocT t).2 with ⟨_, d, k2, _⟩ | ⟨_, _, _, k4⟩
+    · have : (Queue.new confCap t m0).1 = .ok := by simp [Queue.new, h1.1, k2]
+      rw [this] at n1; exact absurd n1 (by decide)
+    · have h2 := Deque.allocT_of_neverRefuses t _ h1.2.1
+      have h3 := Deque.allocT_of_neverRefuses t _ h2.2.1
       rcases k4 with k4 | k4
       · rw [k4] at h2; exact absurd h2.1 (by decide)
       · rw [k4] at h3; exact absurd h3.1 (by decide)
@@ -236,6 +339,12 @@ theorem spec_fifo (ops : List Op) (f : Fifo) :
       simp only [runF, stepF, enqueued, polled]
       exact ih f
 
+/-- **size = insertions − successful removals, over a whole history** -/
+theorem spec_size_history (ops : List Op) (f : Fifo) :
+    f.size + (enqueued ops).length = (polled ops (runF f ops).1).length + (runF f ops).2.size := by
+  have := congrArg List.length (spec_fifo ops f)
+  simpa [Fifo.size] using this
+
 /-- `peek` shows exactly the element the next `poll` returns, and does not remove it -/
 theorem spec_peek_poll (f : Fifo) : f.peek.1 = f.poll.1 ∧ f.peek.2 = f.poll.2.1 := by
   unfold Fifo.peek Fifo.poll; cases f.items <;> exact ⟨rfl, rfl⟩
@@ -262,7 +371,7 @@ theorem iteration_observes (q : Queue) (f : Fifo) (m : Mem) (it : Deque.Iter) (h
     (Queue.iterNext it q m).1 = (DequeSpec.curNext f.items.reverse it.cur).1 ∧
     (Queue.iterNext it q m).2.1 = (DequeSpec.curNext f.items.reverse it.cur).2.1 ∧
     (Queue.iterNext it q m).2.2.1.cur = (DequeSpec.curNext f.items.reverse it.cur).2.2 := by
-  obtain ⟨hi, habs⟩ := h
+  obtain ⟨⟨hi, _⟩, habs⟩ := h
   have habs' : q.d.abs = f.items.reverse := habs
   obtain ⟨f1, f2⟩ := Deque.foreach_spec q.d m hi
   obtain ⟨i1, i2, i3, _⟩ := Deque.iterNext_spec it q.d m hi
@@ -270,7 +379,7 @@ theorem iteration_observes (q : Queue) (f : Fifo) (m : Mem) (it : Deque.Iter) (h
   exact ⟨f1, f2, i1, i2, i3⟩
 
 /-- the hypotheses are satisfiable by a non-trivial state: a wrapped, exactly full ring -/
-example : Sim ⟨Deque.mk 4 4 3 3 [12, 13, 14, 11]⟩ ⟨[14, 13, 12, 11]⟩ := by
+example : Sim ⟨Deque.mk 4 4 3 3 [12, 13, 14, 11] .conf, .conf⟩ ⟨[14, 13, 12, 11]⟩ := by
   refine ⟨by decide, by decide⟩
 
 end CC.Properties.C09Queue
